@@ -394,8 +394,10 @@ func TestC13Wrap(t *testing.T) {
 		t.Run(kind, func(t *testing.T) {
 			rapid.Check(t, func(t *rapid.T) {
 				c := genWrapCase(t, kind, 120, false, false, false)
-				pre := genText(t, "preText", 300)
-				c.Pre = &WrapPre{R: genReaderScript(t, "preRS", pre, false), Calls: rapid.IntRange(0, 12).Draw(t, "preCalls")}
+				// the prior use may run into reader faults; the stream after
+				// Reset is fault-free (C08 owns faults)
+				c.Pre = genWrapPre(t, rapid.Bool().Draw(t, "preFaults"))
+				pre := c.Pre.R.Data
 				beginCase("C13", "wrap-"+kind, func() any { return c })
 				msg, bad, x, err := checkWrapReset(c)
 				endCase()
@@ -428,6 +430,9 @@ func checkWrapReset(c WrapCase) (msg string, bad bool, x *wrapExec, err error) {
 	}
 	if m, b := x.first("C16"); b {
 		return m, true, x, nil
+	}
+	if m, b := x.first("C13"); b {
+		return "after Reset: " + m, true, x, nil
 	}
 	if m, b := x.first("C08"); b {
 		return "after Reset: " + m, true, x, nil
